@@ -164,6 +164,28 @@ CLAIMED = {
              "against a std::vector model (positions inside, at and beyond the end), and generated option tables + command lines (combined "
              "shorts, parameters, '--' tail, unknown tokens) against an option model. Where the header is silent both readings are accepted and labelled.",
         design_ref="5/C39"),
+    "C14": dict(
+        engine="mpi(E7)+hypothesis",
+        technique="Hypothesis-generated communication plans (send_am / put / get / progress, request-window settings) executed by a driver that is the only user of parsec_ce on 2..4 MPI ranks; exact delivery multiset and byte comparison oracle; watchdog-decided hangs",
+        text="Each rank initialises PaRSEC without starting the context and drives the communication engine directly with a generated plan and "
+             "generated MCA request-window sizes (from 1 upward so queues overflow). Oracle: every active message is delivered exactly once to "
+             "the right tag with identical bytes; every put/get moves exactly the requested bytes, guard bytes stay intact, completion "
+             "callbacks fire once. A hang is a violation only if the watchdog fires in 3 solo replays.",
+        design_ref="5/C14"),
+    "C21": dict(
+        engine="mpi(E7)+hypothesis",
+        technique="Hypothesis-generated redistribution cases (sizes, tile sizes, window, displacements, 2DBC/SBC, 1..4 ranks) checked element-wise against the definition of the window copy",
+        text="Source is filled with f(i,j) and target with a sentinel g(i,j); after parsec_redistribute every rank checks each local target element: "
+             "inside the window it equals the displaced source element, outside it is unchanged (padding included). Both the reshuffle fast path "
+             "and the general path, partial edge tiles and different source/target distributions are covered.",
+        design_ref="5/C21"),
+    "C22": dict(
+        engine="mpi(E7)+hypothesis",
+        technique="Hypothesis-generated matrix shapes / uplo / distributions; per-tile invocation counters for parsec_apply and (src,dst) visit + int64 fold oracle for the map operator",
+        text="parsec_apply over full/upper/lower regions must invoke the operator exactly once per tile of the region and never elsewhere; the map "
+             "operator must visit every (source, destination) tile pair once and its int64 sum/xor/max fold must equal the sequential fold. "
+             "The reductions (reduce.jdf, reduce_row/col) are exercised by replays only: they fail on the unchanged tree (known findings C22-F2/F3).",
+        design_ref="5/C22"),
     "C23": dict(
         engine="ptg(E5)+hypothesis",
         technique="generated parameter spaces; key distinctness and key_print round-trip oracle on the generated make_key/key_print",
